@@ -163,6 +163,23 @@ example : ∃ e ∈ Generated.options, e.optedOut = false ∧ e.relevant = true 
   simp only [Bool.and_eq_true, Bool.not_eq_true', decide_eq_true_eq] at hd
   exact ⟨e, he, hd.1.1, hd.1.2, hd.2⟩
 
+/-- **Options are loud in company (modulo the listed known findings).**  For every method and
+    every ordered pair (A, B) of distinct options it accepts, called with BOTH present — A opted
+    out with `ignore_feature` or not, B not opted out: a relevant B is accepted silently only
+    where B alone already is (the listed `silent-option:*` findings).  An opted-out option does
+    not shield the options that accompany it. -/
+theorem options_loud_pairs :
+    ∀ e ∈ Generated.optionPairs, e.relevant = true → e.disp = .accepted →
+      e.key ∈ Generated.knownSilent :=
+  fun e he h2 h3 => Proofs.C20.options_pairs e he h2 h3
+
+/-- the table does contain pairs with A opted out in which B is (rightly) rejected -/
+example : ∃ e ∈ Generated.optionPairs, e.relevant = true ∧ e.aOptedOut = true ∧
+    e.disp = .raisesNotImplemented := by
+  obtain ⟨e, he, hd⟩ := List.any_eq_true.mp Proofs.C20.some_pair_rejected
+  simp only [Bool.and_eq_true, decide_eq_true_eq] at hd
+  exact ⟨e, he, hd.1.1, hd.1.2, hd.2⟩
+
 /-- The full-strength statement: an option a method recognises is ignored iff opted out. -/
 def options_ignored_iff_opted_out_full : Prop :=
   ∀ e ∈ Generated.options, e.option.ignorable = true → e.disp ≠ .raisesOther →
@@ -214,5 +231,19 @@ example : ignoreFeature [("session", false), ("collation", false)] "session"
 theorem guard_passes_iff (fs : Features) (f : String) (b : Bool) (h : fs.lookup f = some b) :
     optionGuard fs f true = .passes ↔ b = true :=
   Proofs.C20.guard_passes_iff fs f b h
+
+/-- **Independent guards** (the shape of `_apply_update`, `_delete`, `count_documents`): in a
+    sequence of independent `if value: raise_for_feature(..)` guards over known features, a given
+    option whose feature is not opted out makes the call raise, wherever it stands in the
+    sequence and whatever the other options and their opt-outs are. -/
+theorem guards_independent (fs : Features) (gs : List (String × Bool)) (f : String)
+    (hknown : ∀ g ∈ gs, (fs.lookup g.1).isSome = true)
+    (hmem : (f, true) ∈ gs) (hf : fs.lookup f = some false) :
+    guardSeq fs gs = .raisesNotImplemented :=
+  Proofs.C20.guardSeq_loud fs gs f hknown hmem hf
+
+/-- non-vacuity: session opted out and given first, collation given and not opted out -/
+example : guardSeq [("session", true), ("collation", false)]
+    [("session", true), ("collation", true)] = .raisesNotImplemented := by decide
 
 end MongoModel.Props.C20
